@@ -51,6 +51,7 @@ STRUCT_RESP = doc("VerifH_CatalogStructure", {"K": 4, "MENU": 3}, {"K": 5, "MENU
 CROSSINC = doc("VerifH_CrossProjectInclude", {"K": 1}, {"K": 2}, stubsets=["location", "vfs-files"])
 MARSHAL = {"pkg": "catalog", "fn": "VerifH_MarshalStable", "quick": {"CROSS": 1}, "thorough": {"CROSS": 1},
            "stubs": {"encoding/json.Marshal": "verifStubJSONMarshal"}, "replay_repeat": 3}
+ATTRIB = doc("VerifH_DiagnosticAttribution", {"K": 3}, {"K": 4}, full_schema_lib=True)
 MSHAPE = {"pkg": "catalog", "fn": "VerifH_MarshalShape", "quick": {}, "thorough": {}, "instances": [{"T": t} for t in range(4)],
           "instances_thorough": [{"T": 4}], "stubs": {"encoding/json.Marshal": "verifStubJSONMarshalLogged"}}
 FIXTURES = {"pkg": "core", "fn": "VerifH_Fixture", "quick": {}, "thorough": {}, "full_schema_lib": True,
@@ -93,9 +94,15 @@ CHECKS = {
   "harnesses": [LOC, LOC_LONG, TRACE1, TRACE2, {"pkg": "jerr", "fn": "VerifH_LocationIndependent", "quick": {"N": 2}, "thorough": {"N": 3}},
    next_total(3, 5, [0, 1, 5, 9, 12, 15]),
    scan_project({"N": 2, "M": 1}, {"N": 3, "M": 2}, [0, 1, 2, 7, 14, 16]),
+   doc("VerifH_PipelineTotal", {"K": 2, "MENU": 0}, {"K": 3, "MENU": 0}, budget_violation=True),
+   doc("VerifH_PipelineTotal", {"K": 2, "MENU": 1}, {"K": 3, "MENU": 1}, budget_violation=True, full_schema_lib=True),
+   doc("VerifH_StaticChecks", {"K": 3, "MENU": 0}, {"K": 4, "MENU": 0}),
+   doc("VerifH_StaticChecks", {"K": 3, "MENU": 1}, {"K": 4, "MENU": 1}, full_schema_lib=True),
+   ATTRIB,
   ],
-  "assumptions": ["same stubs as C01 for the scanner / scanProject instances"],
-  "not_decided": ["attribution of schema-library errors to the directive at fault", "contents longer than the bounds"],
+  "assumptions": ["same stubs as C01 for the scanner / scanProject instances",
+                  "document level (L-doc templates, see C04): every diagnostic lies inside the file; a structural fault (duplicate, second singleton, missing name, bodiless response, undeclared tag) is reported at the keyword of one of the directives that make it up; a dangling user-type reference inside a schema body (response @x / [@x], allOf) - which only the schema library notices - is reported inside the text of a directive containing such a reference"],
+  "not_decided": ["attribution of schema-library errors other than dangling type references (syntax errors inside bodies, rule violations)", "contents longer than the bounds", "line and quote at document level (jerr.NewLocation is summarised there; its arithmetic is decided by VerifH_LocationSpec)"],
  },
  "C03": {
   "title": "Determinism",
@@ -210,9 +217,10 @@ CHECKS = {
   "title": "Static checks are sound",
   "harnesses": [doc("VerifH_StaticChecks", {"K": 3, "MENU": 0}, {"K": 4, "MENU": 0}),
                 doc("VerifH_StaticChecks", {"K": 4, "MENU": 1}, {"K": 5, "MENU": 1}, full_schema_lib=True),
-                doc("VerifH_StaticChecks", {"K": 2, "MENU": 2}, {"K": 3, "MENU": 2}, full_schema_lib=True)],
+                doc("VerifH_StaticChecks", {"K": 2, "MENU": 2}, {"K": 3, "MENU": 2}, full_schema_lib=True),
+                ATTRIB],
   "assumptions": DOC_ASSUME + ["fault predicates (refFaults): duplicate TYPE / SERVER / TAG name, same URL path twice, same method on the same path twice, second Title / Version / Description / Protocol / BaseUrl under one parent, Tags naming a tag no TAG directive declares (when some method uses that Tags directive)"],
-  "not_decided": DOC_NOT + ["dangling type / enum references inside schema bodies", "faults injected through INCLUDE", "required-parameter faults (the templates always carry their parameters)", "paths differing only in a parameter name"],
+  "not_decided": DOC_NOT + ["dangling references other than user types named by a response body / array item / allOf rule (enum references, Path / Query / Headers / Request bodies)", "faults injected through INCLUDE", "required-parameter faults (the templates always carry their parameters)", "paths differing only in a parameter name"],
  },
  "C12": {
   "title": "allOf inheritance",
